@@ -55,6 +55,37 @@ Proof.
     specialize (Hf a Ha). lia.
 Qed.
 
+Lemma find_lt_some l : StronglySorted (fun x y => y < x) l -> forall a b,
+  find (fun b => b <? a) l = Some b -> In b l /\ b < a /\ forall y, In y l -> b < y -> a <= y.
+Proof.
+  induction l as [|x r IH]; intros Hs a b H; simpl in H; [discriminate|].
+  inversion Hs as [|? ? Hsr Hf]; subst. rewrite Forall_forall in Hf.
+  destruct (x <? a) eqn:E.
+  - inversion H; subst x. apply Nat.ltb_lt in E. split; [left; reflexivity|]. split; [exact E|].
+    intros y [Hy|Hy] Hby; [lia|]. specialize (Hf y Hy). lia.
+  - apply Nat.ltb_ge in E. destruct (IH Hsr a b H) as [Hb [Hba Hadj]].
+    split; [right; exact Hb|]. split; [exact Hba|]. intros y [Hy|Hy] Hby; [lia|apply Hadj; assumption].
+Qed.
+
+Lemma next_sym_rev_some l : StronglySorted (fun x y => y < x) l -> forall a b, next_sym l true a = Some b ->
+  In b l /\ b < a /\ forall y, In y l -> b < y -> a <= y.
+Proof.
+  intros Hs a b H. destruct (in_dec Nat.eq_dec a l) as [Ha|Ha].
+  - destruct (sym_succ_total l a Ha) as [n En]. rewrite (next_sym_in l a Ha true n En) in H. subst n.
+    destruct (sym_succ_some_d l Hs a b En) as [_ [Hb [Hba Hadj]]]. auto.
+  - rewrite (next_sym_out l a true Ha) in H. exact (find_lt_some l Hs a b H).
+Qed.
+
+Lemma next_sym_rev_none l : StronglySorted (fun x y => y < x) l -> forall a, next_sym l true a = None ->
+  forall y, In y l -> a <= y.
+Proof.
+  intros Hs a H. destruct (in_dec Nat.eq_dec a l) as [Ha|Ha].
+  - destruct (sym_succ_total l a Ha) as [n En]. rewrite (next_sym_in l a Ha true n En) in H. subst n.
+    exact (proj2 (sym_succ_none_d l Hs a En)).
+  - rewrite (next_sym_out l a true Ha) in H. intros y Hy.
+    pose proof (find_none _ _ H y Hy) as E. simpl in E. apply Nat.ltb_ge in E. exact E.
+Qed.
+
 Lemma ssorted_SS l : ssorted l -> StronglySorted lt l.
 Proof.
   induction l as [|x r IH]; intro H; constructor.
@@ -123,17 +154,18 @@ Section Rev.
 
   (* after moving to the next (smaller) sibling, or to "no sibling left", exactly the words
      that are not below p.a have been processed *)
-  Lemma procR_succ ss cs a n w : sym_succ syms a = Ok n -> ov w ->
-    (procR (mkcfg ss cs n true) w <-> ~ lex_lt w (rev cs ++ [a])).
+  (* should_yield only matters when no candidate is left *)
+  Lemma procR_succ ss cs a yy w : (next_sym syms true a = None -> yy = true) -> ov w ->
+    (procR (mkcfg ss cs (next_sym syms true a) yy) w <-> ~ lex_lt w (rev cs ++ [a])).
   Proof.
-    intros Hn Hw. unfold procR. simpl. destruct n as [b|].
-    - destruct (sym_succ_some_d _ Hds _ _ Hn) as [_ [_ [Hba Hadj]]].
+    intros Hyy Hw. unfold procR. simpl. destruct (next_sym syms true a) as [b|] eqn:Hn.
+    - destruct (next_sym_rev_some _ Hds _ _ Hn) as [_ [Hba Hadj]].
       assert (Hadj' : forall y, In y syms -> y < a -> y <= b).
       { intros y Hy Hya. destruct (le_lt_dec y b) as [H|H]; [exact H|]. specialize (Hadj y Hy H). lia. }
       pose proof (adj_lt syms b a Hba Hadj' (rev cs) w Hw) as H. unfold below. tauto.
-    - destruct (sym_succ_none_d _ Hds _ Hn) as [_ Hmin].
+    - pose proof (next_sym_rev_none _ Hds _ Hn) as Hmin.
       pose proof (first_lt syms a Hmin (rev cs) w Hw) as H. split.
-      + intros [H1|[H1 _]] H2; [|discriminate]. apply H in H2.
+      + rewrite (Hyy eq_refl). intros [H1|[H1 _]] H2; [|discriminate]. apply H in H2.
         destruct H2 as [H2|H2]; [exact (lex_lt_asym _ _ H1 H2)|subst; exact (lex_lt_irrefl _ H1)].
       + intro H1. left. destruct (lex_lt_total w (rev cs)) as [H2|[H2|H2]]; [|  |exact H2];
           exfalso; apply H1; apply H; tauto.
@@ -196,7 +228,7 @@ Section Rev.
     wf m syms C -> InvR out C -> mstep m co syms first true lo ohi C = Ok (y, C') ->
     wf m syms C' /\ InvR (out ++ y) C'.
   Proof.
-    intros [Hst [Hov Hcand]] Hinv H. unfold mstep in H.
+    intros [Hst Hcand] Hinv H. unfold mstep in H.
     destruct (stack_top m _ _ Hst) as [below' Ess]. rewrite Ess in H. cbv zeta in H. simpl negb in H.
     assert (Hemit0 : forall b, emit m lo ohi C (run (rev (c_chars C))) false b = []) by reflexivity.
     rewrite Hemit0 in H. clear Hemit0.
@@ -207,9 +239,8 @@ Section Rev.
       destruct (in_co co (ostep m (run p) a) && can_descend ohi (length (c_chars C))) eqn:Evi; intro H.
       + (* descend: nothing generated, same processed set *)
         inversion H; subst y C'; clear H. rewrite app_nil_r. split.
-        * split; [|split]; simpl.
+        * split; simpl.
           -- split; [|rewrite <- Ess; exact Hst]. fold p. rewrite dfa_run_app. reflexivity.
-          -- constructor; assumption.
           -- intros x Hx. inversion Hx; subst. exact Hfirst_in.
         * destruct Hinv as [Hs [Hc HA]].
           assert (Heq : forall w, ov w ->
@@ -222,14 +253,13 @@ Section Rev.
              ++ intros [H1 H2]. apply Hc. split; [exact H1|]. apply Heq; [apply spec_overR; exact H1|exact H2].
           -- intros w Hw Hn. apply HA; [exact Hw|]. intro H. apply Hn. apply Heq; assumption.
       + (* next sibling: the skipped subtree holds no specified word *)
-        revert H. destruct (sym_succ syms a) as [n|e] eqn:En; simpl; intro H; [|discriminate].
         inversion H; subst y C'; clear H. rewrite app_nil_r. split.
-        * split; [|split]; simpl; [rewrite <- Ess; exact Hst|exact Hov|].
-          intros x Hx. subst n. destruct (sym_succ_some_d _ Hds _ _ En) as [_ [Hb _]]. exact Hb.
+        * split; simpl; [rewrite <- Ess; exact Hst|].
+          intros x Hx. destruct (next_sym_rev_some _ Hds _ _ Hx) as [Hb _]. exact Hb.
         * destruct Hinv as [Hs [Hc HA]].
           assert (Heq : forall w, ov w ->
-                   (procR (mkcfg (run p :: below') (c_chars C) n true) w <-> procR C w \/ is_prefix (p ++ [a]) w)).
-          { intros w Hw. rewrite (procR_succ _ (c_chars C) a n w En Hw). fold p.
+                   (procR (mkcfg (run p :: below') (c_chars C) (next_sym syms true a) true) w <-> procR C w \/ is_prefix (p ++ [a]) w)).
+          { intros w Hw. rewrite (procR_succ _ (c_chars C) a true w (fun _ => eq_refl) Hw). fold p.
             unfold procR. rewrite Ec. fold p. unfold below. split.
             - intro H1. destruct (is_prefix_dec (p ++ [a]) w) as [H2|H2]; [right; exact H2|left; tauto].
             - intros [H1|H1]; [tauto|apply prefix_not_lt; exact H1]. }
@@ -245,17 +275,18 @@ Section Rev.
     - (* leaving p: generate it, return to the parent *)
       pose proof (leave_correct out C Ec Hinv) as Hleave. cbv zeta in Hleave. fold p in Hleave.
       unfold p in *. clear p.
-      revert H Hst Hov Hleave. destruct (c_chars C) as [|a cs] eqn:Ecs; intros H Hst Hov Hleave; [discriminate|].
-      revert H. destruct (sym_succ syms a) as [n|e] eqn:En; simpl; intro H; [|discriminate].
-      inversion H; subst y C'; clear H.
-      simpl in Hst. rewrite Ess in Hst. destruct Hst as [_ Hst]. inversion Hov as [|? ? Ha Hov']; subst.
+      revert H Hst Hleave. destruct (c_chars C) as [|a cs] eqn:Ecs; intros H Hst Hleave; [discriminate|].
+      cbv zeta in H. inversion H; subst y C'; clear H.
+      simpl in Hst. rewrite Ess in Hst. destruct Hst as [_ Hst].
+      set (yy := negb (eqb_opt Nat.eqb (next_sym syms true a) (Some first))).
+      assert (Hyy : next_sym syms true a = None -> yy = true) by (intro E; unfold yy; rewrite E; reflexivity).
       split.
-      + split; [|split]; simpl; [exact Hst|exact Hov'|].
-        intros x Hx. subst n. destruct (sym_succ_some_d _ Hds _ _ En) as [_ [Hb _]]. exact Hb.
+      + split; simpl; [exact Hst|].
+        intros x Hx. destruct (next_sym_rev_some _ Hds _ _ Hx) as [Hb _]. exact Hb.
       + destruct Hleave as [Hs [Hc HA]].
         assert (Heq : forall w, ov w ->
-                 (procR (mkcfg below' cs n true) w <-> procR C w \/ w = rev (a :: cs))).
-        { intros w Hw. rewrite (procR_succ _ cs a n w En Hw). unfold procR. rewrite Ec, Ecs. simpl rev.
+                 (procR (mkcfg below' cs (next_sym syms true a) yy) w <-> procR C w \/ w = rev (a :: cs))).
+        { intros w Hw. rewrite (procR_succ _ cs a yy w Hyy Hw). unfold procR. rewrite Ec, Ecs. simpl rev.
           destruct (lex_lt_total w (rev cs ++ [a])) as [H1|[H1|H1]].
           - split; [tauto|]. intros [[H2|[_ H2]]|H2] H3.
             + exact (lex_lt_asym _ _ H1 H2).
@@ -298,33 +329,30 @@ End Rev.
 Theorem machine_reverse_correct fuel m start strict lo ohi l :
   valid_dfa m = true ->
   finite_lang (L_dfa m) ->
-  (forall s, start = Some s -> Forall (fun a => In a (d_syms m)) s) ->
   succ_machine fuel m start strict true lo ohi = Ok l ->
   l = pred_list m start strict lo (the_hi m ohi).
 Proof.
-  intros Hv Hfin Hstart H. unfold succ_machine in H.
+  intros Hv Hfin H. unfold succ_machine in H.
   destruct (finite_isfinite m Hv Hfin) as [Efin _]. rewrite Efin in H. simpl in H.
   destruct (coreach_states_ok m Hv) as [co [Eco Hco]]. rewrite Eco in H. simpl in H.
   unfold machine_syms in H.
   assert (Hds : StronglySorted (fun x y => y < x) (rev (set_of (d_syms m)))).
   { apply (SSorted_rev lt). apply ssorted_SS. apply set_of_sorted. }
-  destruct (rev (set_of (d_syms m))) as [|first rest] eqn:Esy; [discriminate|].
+  destruct (rev (set_of (d_syms m))) as [|first rest] eqn:Esy.
+  { inversion H. apply empty_guard_pred. destruct (set_of (d_syms m)) as [|x r]; [reflexivity|].
+    apply (f_equal (@length nat)) in Esy. rewrite rev_length in Esy. discriminate. }
   assert (Hsy : forall a, In a (first :: rest) <-> In a (d_syms m)).
   { intro a. rewrite <- Esy, <- in_rev. apply set_of_In. }
   assert (Hfirst : forall y, In y (first :: rest) -> y <= first).
   { inversion Hds as [|? ? _ Hf]; subst. rewrite Forall_forall in Hf.
     intros y [<-|Hy]; [lia|]. specialize (Hf y Hy). lia. }
   assert (Hfin_in : In first (first :: rest)) by (left; reflexivity).
-  assert (Hov : forall w, Forall (fun a => In a (d_syms m)) w -> Forall (fun a => In a (first :: rest)) w).
-  { intros w Hw. rewrite Forall_forall in *. intros a Ha. apply Hsy. apply Hw. exact Ha. }
   set (C0 := init_cfg m first start strict true) in *.
   assert (Hwf : wf m (first :: rest) C0).
-  { unfold C0, init_cfg. destruct start as [s|]; (split; [|split]); simpl.
+  { unfold C0, init_cfg. destruct start as [s|]; split; simpl.
     - apply (trace_rev_ok m s [] [] (Some (d_init m))); reflexivity.
-    - apply Forall_rev. apply Hov. apply Hstart. reflexivity.
     - intros a Ha. discriminate.
     - reflexivity.
-    - constructor.
     - intros a Ha. inversion Ha; subst. exact Hfin_in. }
   assert (Hinv : InvR m start strict lo ohi (first :: rest) [] C0).
   { unfold C0, init_cfg. destruct start as [s|].
